@@ -29,10 +29,9 @@ def entries():
     L.append(ent("bool.value", "x: bool, " + W, '("bool", x)', "w", pre=["not isinstance(w, (str, bytes)) or len(w) <= 2"]))
     L.append(ent("bool.any", W, '("bool", Nil)', "w", pre=["not isinstance(w, (str, bytes)) or len(w) <= 2"]))
     L.append(ent("none", W, '("none",)', "w", pre=["not isinstance(w, (str, bytes)) or len(w) <= 2"]))
-    L.append(ent("float.minmax", "mn: float, mx: float, v: float", '("float", Nil, mn, mx, Nil)', "v",
-                pre=["v == v"]))
+    L.append(ent("float.minmax", "mn: float, mx: float, v: float", '("float", Nil, mn, mx, Nil)', "v"))
     L.append(ent("float.min.wild", "mn: float, " + W, '("float", Nil, mn, Nil, Nil)', "w",
-                pre=["not isinstance(w, (str, bytes)) or len(w) <= 2", "not isinstance(w, float) or w == w"]))
+                pre=["not isinstance(w, (str, bytes)) or len(w) <= 2"]))
     L.append(ent("bytes.value", "x: bytes, v: bytes", '("bytes", x)', "v", pre=["len(x) <= 3", "len(v) <= 3"]))
     L.append(ent("bytes.wild", W, '("bytes", Nil)', "w", pre=["not isinstance(w, (str, bytes)) or len(w) <= 2"]))
     # ---- str
